@@ -41,7 +41,8 @@ Choices ==
   \cup {<<"Double", f>> : f \in {<<0,0,0,0,0,0,0,0>>, <<127,248,0,0,0,0,0,1>>}}
   \cup {<<op, Payload(n)>> : op \in {"Blob", "Text", "ShortBytes", "IntBytes", "TextShort"}, n \in BlobLens}
   \cup {<<"IntArr", a>> : a \in {<<>>, <<P2(0)>>, <<Neg(P2(0)), P2(31 - 8)>>}}
-  \cup {<<"TextArr", a>> : a \in {<<>>, <<Payload(0), Payload(254)>>}}
+  \cup {<<"Raw", Payload(n)>> : n \in BlobLens}
+  \cup {<<"TextArr", a>> : a \in {<<>>, <<Payload(0), Payload(254)>>, <<Payload(1), Payload(0), Payload(2)>>}}
   \cup {<<"LongArr", a>> : a \in {<<>>, <<Neg(P2(39))>>}}
 
 MCNext == \/ \E c \in Choices : Len(prog) < MaxLen /\ W(c[1], c[2])
@@ -53,4 +54,11 @@ MCSpec == Init /\ [][MCNext]_vars
 \* finished runs read back everything
 Complete == (rpos > 0 /\ Len(rd) = Len(prog)) => /\ rpos = Len(buf) + 1
                                                  /\ \A i \in 1..Len(rd) : rd[i] = prog[i][2]
+
+\* the stream-level operators (halving flatten / decode, raw bytes) are the reference operators
+FastAgree == \A i \in 1..Len(prog) :
+   LET op == prog[i][1]
+       v  == prog[i][2] IN
+   op # "Raw" => /\ EncFor(op, v) = Enc(op, v)
+                 /\ DecFor(op, v, Enc(op, v) \o <<9>>, 1) = Dec(op, Enc(op, v) \o <<9>>, 1)
 =============================================================================
